@@ -28,6 +28,12 @@ CHECKS.update({
          "Oracle parameter table; grid points only (no off-grid concentrations); 3'-terminal A/T convention as documented by the function.", "§5 C19"),
 })
 
+CHECKS.update({
+ "C09": ("stateless model checking of the real goroutines under a controlled scheduler (all interleavings / preemption-bounded, visited-state pruning) plus bounded exhaustive enumeration of assembly designs",
+         "CircularLigate/GoldenGate are built from the current tree with every go statement, channel operation, close and WaitGroup call routed through a cooperative scheduler; for small pools ALL interleavings are executed (no preemption bound) and for larger ones all schedules up to a stated preemption bound, with visited-state pruning; every execution's construct set is compared with a brute-force simple-cycle ring enumerator, and deadlock, panic (send on closed channel), leaked tasks and horizon overrun (non-termination) are detected on the schedule where they occur. Separately every design with up to J junctions, every orientation mask, every input order (small f) and decoys are run on the default schedule.",
+         "Scheduling points at channel/WaitGroup/spawn operations only (a free-running -race pass is the complement); bounds as reported in evidence.bounds.", "§5 C09"),
+})
+
 NOT_YET = {}
 
 props = [json.loads(l) for l in open('/verif/properties.jsonl')]
